@@ -853,8 +853,8 @@ fn trunc(s: &str, n: usize) -> String {
 
 fn budget(t: Tier) -> u64 {
     match t {
-        Tier::Quick => 2400,
-        Tier::Thorough => 150_000,
+        Tier::Quick => simcore::scaled(2400),
+        Tier::Thorough => simcore::scaled(150_000),
     }
 }
 
